@@ -58,10 +58,12 @@ def build_proofs(prop, log):
     if bad:
         res["errors"].append("forbidden declarations: " + "; ".join(bad[:5]))
     # full build of everything the property file depends on (and the extraction), then the file itself
-    rc, out = sh(["make", "-C", VERIF, "setup"], timeout=1500)
+    rc, out = sh(["make", "-C", VERIF, "model"], timeout=1500)
     log.append(out[-3000:])
     if rc != 0:
-        res["errors"].append("coq build failed: " + out[-1500:])
+        res["errors"].append("the executable model does not build: " + out[-1500:])
+    rc, out = sh(["make", "-C", VERIF, "proofs"], timeout=1500)
+    log.append(out[-3000:])
     rc, out = sh(["coqc", "-Q", ".", "Msm", "Properties_%s.v" % prop], cwd=COQ, timeout=900)
     if rc != 0:
         res["errors"].append("Properties_%s.v does not check: %s" % (prop, out[-1500:]))
